@@ -496,6 +496,31 @@ class CallMixin:
                 x, y = (zreal(acc), zreal(v)) if real else (zint(acc), zint(v))
                 acc = Sym("real" if real else "int", simp(z3.If(x >= y, x, y) if short == "max" else z3.If(x <= y, x, y)))
             return [("val", acc, st)]
+        if short == "repr" and len(args) == 1:
+            v = args[0]
+            if isinstance(v, (str, int, float, bool)) or v is None:
+                return [("val", repr(v), st)]
+            if is_sym(v, "int"):
+                return [("val", Sym("str", ops.int_to_str(v.t)), st)]
+            if isinstance(v, Sym) and v.kind in ("real", "str", "bool", "any"):
+                return [("val", fresh("str", "repr_text"), st)]      # some text (its content is not modelled)
+            raise Unsupported(f"repr of {v!r}")
+        if short in ("math.isfinite", "math.isnan", "math.isinf") and len(args) == 1:
+            v = args[0]
+            if isinstance(v, (int, float)) and not isinstance(v, bool):
+                import math
+                return [("val", getattr(math, short.split(".")[1])(v), st)]
+            if is_sym(v, "int") or is_sym(v, "bool") or isinstance(v, bool):
+                return [("val", short == "math.isfinite", st)]
+            if is_sym(v, "real"):
+                # a float is a real number OR one of inf / -inf / nan: the reals of the model stand for the finite floats, and whether a given float
+                # is one of the three special values is an uninterpreted predicate of it (nothing is assumed about which floats are finite)
+                fin = z3.Function("float_is_finite", z3.RealSort(), z3.BoolSort())(v.t)
+                nan = z3.Function("float_is_nan", z3.RealSort(), z3.BoolSort())(v.t)
+                st.assume(z3.Implies(nan, z3.Not(fin)))
+                t = {"math.isfinite": fin, "math.isnan": nan, "math.isinf": z3.And(z3.Not(fin), z3.Not(nan))}[short]
+                return [("val", Sym("bool", simp(t)), st)]
+            raise Unsupported(f"{short} of {v!r}")
         if short in ("math.ceil",):
             v = args[0]
             if isinstance(v, (int, float)):
@@ -795,6 +820,25 @@ class CallMixin:
             if stor["open"] or not all(z3.is_true(p) for p, _ in stor["e"].values()):
                 raise Unsupported("values() of dict with maybe-present keys")
             return [("val", tuple(v for p, v in stor["e"].values()), st)]
+        if name == "setdefault" and 1 <= len(args) <= 2 and not stor["open"] and is_concrete(args[0]):
+            k = args[0]
+            dflt = args[1] if len(args) > 1 else None
+            if k in stor["e"]:
+                p, v = stor["e"][k]
+                if z3.is_true(simp(p)):
+                    return [("val", v, st)]
+                out = []
+                for present, s in self.branch(st, p):
+                    cur = s.get(recv)
+                    e = dict(cur["e"])
+                    e[k] = (T, v if present else dflt)
+                    s.put(recv, dict(cur, e=e))
+                    out.append(("val", v if present else dflt, s))
+                return out
+            e = dict(stor["e"])
+            e[k] = (T, dflt)
+            st.put(recv, dict(stor, e=e))
+            return [("val", dflt, st)]
         if name == "copy":
             return [("val", st.alloc("dict", stor), st)]
         if name == "update" and len(args) == 1 and isinstance(args[0], Ref) and st.get(args[0]).get("__kind__") == "dict":
